@@ -219,6 +219,13 @@ func (e *Engine) createTableLocked(def TableDef) error {
 	return nil
 }
 
+// DropTable removes a table from the catalogue (no-op when unknown).
+func (e *Engine) DropTable(name string) {
+	e.mu.Lock()
+	defer e.mu.Unlock()
+	delete(e.tables, strings.ToLower(name))
+}
+
 // CreateUndoLogTable creates seata's `undo_log` table.
 func (e *Engine) CreateUndoLogTable() {
 	_ = e.CreateTable(TableDef{Name: "undo_log", Cols: []Column{
@@ -530,8 +537,14 @@ func (e *Engine) matchFault(s *session, kind, tbl string) error {
 	if s.silent {
 		return nil
 	}
+	// catalogue queries (the table-meta cache and its background refresher) are never counted unless
+	// the fault names the table
+	catalogue := strings.EqualFold(tbl, "columns") || strings.EqualFold(tbl, "statistics")
 	var out error
 	for _, f := range e.faults {
+		if catalogue && f.Table == "" {
+			continue
+		}
 		if f.done || (f.Conn != 0 && f.Conn != s.id) || (f.Kind != "" && f.Kind != kind) ||
 			(f.Table != "" && !strings.EqualFold(f.Table, tbl)) {
 			continue
